@@ -31,7 +31,10 @@ namespace sim {
 		// simplified network model where the two paths of a connection are set up
 		// independently, and we can set up the nat hop only on the outgoing path
 		p.from.address(m_external_addr);
-		if (p.channel) {
+		// visible_ep[0] is how the initiating end of the connection appears to
+		// the accepting end. Only the SYN travels from the initiator; a SYN+ACK
+		// passing the acceptor's own NAT must leave it alone
+		if (p.channel && p.type == aux::packet::type_t::syn) {
 			p.channel->visible_ep[0].address(m_external_addr);
 		}
 		forward_packet(std::move(p));
